@@ -44,6 +44,7 @@ Hop(i) == [flags |-> i % 4, exp |-> (i * 29 + 63) % 256, in |-> (i * 257 + 1) % 
 Seg(s, n) == [info |-> Info(s, s % 4), hops |-> [j \in 1..n |-> Hop(s * 64 + j)]]
 Std(lens, ci, ch) == [k |-> "std", ci |-> ci, ch |-> ch, segs |-> [s \in 1..Len(lens) |-> Seg(s, lens[s])]]
 OneHop(i) == [k |-> "onehop", info |-> Info(i, 1), hops |-> <<Hop(i), Hop(i + 1)>>]
+OneHopFresh == [k |-> "onehop", info |-> Info(5, 1), hops |-> <<Hop(5), [Hop(0) EXCEPT !.in = 0, !.eg = 0]>>]   \* second hop not yet set
 Uns(t, n) == [k |-> "uns", t |-> t, data |-> [i \in 1..n |-> (t + i) % 256]]
 Empty == [k |-> "empty"]
 (* reserved flag bits set: still representable, the bits travel *)
@@ -61,7 +62,7 @@ ShapePaths ==
    Std(<<32, 32>>, 0, 0), Std(<<32, 32>>, 1, 63), Std(<<40, 24>>, 0, 0), Std(<<40, 24>>, 1, 63), Std(<<1, 63>>, 1, 63),
    Std(<<21, 21, 20>>, 0, 0), Std(<<21, 21, 20>>, 2, 61), Std(<<21, 21, 21>>, 2, 62),
    Std(<<30, 30, 4>>, 0, 0), Std(<<30, 30, 4>>, 2, 63), Std(<<21, 21, 22>>, 1, 30), Std(<<62, 1, 1>>, 2, 63),
-   OneHop(250), Uns(3, 0), Uns(4, 12), Uns(5, 4), Uns(255, 8), Uns(200, 984)}
+   OneHop(250), OneHopFresh, Uns(3, 0), Uns(4, 12), Uns(5, 4), Uns(255, 8), Uns(200, 984)}
   \cup (IF THOROUGH THEN {Std(<<a, b, c>>, 0, 0) : a \in {1, 2, 31}, b \in {1, 2, 21}, c \in {1, 2, 21}}
                           \cup {Std(<<a, b>>, 1, a) : a \in {1, 2, 62, 63}, b \in {1, 2, 18}}
                           \cup {Uns(t, n) : t \in {3, 4, 5, 100, 255}, n \in {0, 4, 8, 400}}
@@ -102,7 +103,9 @@ AddrPairs == IF THOROUGH THEN GoodAddrs \X GoodAddrs
 GAddr(d) == {Mk(0, 1, NhOf(pl), d, s, p, pl) : s \in {x \in GoodAddrs : <<d, x>> \in AddrPairs}, p \in BasicPaths, pl \in SmallPls}
 
 HdrVariants == {<<V4a, V4a, Empty>>, <<V6a, Svc(2), Std(<<2, 3>>, 1, 2)>>}
-               \cup (IF THOROUGH THEN {<<Unk(3, 12), V6b, OneHop(3)>>} ELSE {})
+               \cup (IF THOROUGH THEN {<<Unk(3, 12), V6b, OneHop(3)>>, <<Svc(65535), V4b, Uns(200, 4)>>, <<V4a, Unk(0, 8), Std(<<1, 1, 1>>, 2, 2)>>,
+                                        <<V6b, V6b, Std(<<32, 32>>, 1, 63)>>, <<Unk(2, 16), Unk(3, 16), Empty>>, <<V4b, Svc(1), OneHop(250)>>}
+                     ELSE {})
 AllPls(n, pat) == {Raw(n, pat), Udp(65535, 1, n, pat)} \cup {ScmpM(t, n, pat) : t \in ScmpKinds}
 GSize(n) == {Mk(0, 0, NhOf(pl), h[1], h[2], h[3], pl) : h \in HdrVariants, pl \in UNION {AllPls(n, pat) : pat \in Pats}}
 
@@ -164,7 +167,11 @@ Expect(m) ==
       hdr |-> hdr, size |-> EncodedSize(m), blen |-> blen,
       head |-> IF rep THEN (IF SmallRep(m) THEN SubSeq(enc, 1, Len(enc) - blen) ELSE PktHead(m)) ELSE <<>>,
       cks |-> IF rep /\ m.pl.k # "raw" THEN Checksum(m) ELSE -1,
-      full |-> IF rep /\ blen <= 64 THEN enc ELSE <<>>]
+      full |-> IF rep /\ blen <= 64 THEN enc ELSE <<>>,
+      \* one-hop reversal: <<reversible, bytes of the upgraded standard path, bytes of the path reversed in place>>
+      rev |-> IF m.path.k = "onehop"
+              THEN [ok |-> OneHopReversible(m.path), std |-> PathBytes(OneHopUpgraded(m.path)), inplace |-> PathBytes(OneHopReversedInPlace(m.path))]
+              ELSE [ok |-> FALSE, std |-> <<>>, inplace |-> <<>>]]
 
 Emit == (GEN /\ IsCase) => PrintT(<<"CASE", ToJson([m |-> cur, e |-> Expect(cur)])>>)
 
